@@ -291,9 +291,6 @@ Qed.
 (* ---------------------------------------------------------------------------------------------- *)
 (* the invariant of reachable states *)
 
-Definition parent_of (k : lkind) : option nat :=
-  match k with KParented p | KTypeSet p _ => Some p | _ => None end.
-
 Record inv (st : lstate) : Prop := mkInv {
   inv_parent : forall l nd p, nth_error st l = Some nd -> parent_of (nkind nd) = Some p -> p < l;
   inv_nodup : forall l nd, nth_error st l = Some nd -> NoDup (map fst (nents nd));
